@@ -165,6 +165,7 @@ class RunResult:
     post: dict                    # observations after launch returned
     decisions: int
     sched_abort: str | None
+    times: list = field(default_factory=list)
 
 
 class Harness:
@@ -357,6 +358,15 @@ class Harness:
         wrap_method(tctl.ControlThread, "shutdown", "shutdown")
         wrap_method(tctl.ControlThread, "save_state", "save_state")
 
+        orig_uptime = tctl.ControlThread.is_max_uptime_reached
+
+        def uptime_getter(self_: Any) -> bool:
+            v = orig_uptime.fget(self_)
+            if v:
+                s.log("uptime_reached")
+            return v
+        self._patch(tctl.ControlThread, "is_max_uptime_reached", property(uptime_getter))
+
         orig_save = sp.StateStore.save_state
 
         def save_w(store: Any) -> Any:
@@ -476,10 +486,12 @@ class Harness:
             outcome = "aborted:" + s.aborted
         if s.abort_index is not None:
             del s.events[s.abort_index:]        # whatever unwinding threads logged after the cut
+            del s.times[s.abort_index:]
         return RunResult(events=s.events, outcome=outcome, schedule=list(s.taken),
                          states_dir_listing=listing, saves=self.saves, post=post,
                          decisions=s.decisions,
-                         sched_abort=None if s.aborted in ("end", "all threads finished") else s.aborted)
+                         sched_abort=None if s.aborted in ("end", "all threads finished") else s.aborted,
+                         times=s.times)
 
 
 class _Cb:
